@@ -536,3 +536,20 @@ example : (countedWith 3 [[0,1],[1,2],[0,1,2],[2,3],[1,3]] (fun _ => [])
       = [[0,1,2],[1,2,3],[0,1,3]] := by
   simp [countedWith, withPat, esuSetsWith, upTo, fullSets, nbrs, dyadic, dedup, extend, newExcl, isort,
     insertSorted]
+
+/-- the reported counts add up to the number of classified node sets: every node set the three passes classify is
+counted under exactly one class (the undirected twin of `C11_dir_census_total`) -/
+theorem C11_census_total_counted (n : Nat) (hn : n = 3 ∨ n = 4) (E : HG) (hE : WF E) :
+    ((census n E).map (·.2)).sum = (counted n E).length := by
+  rw [census_total hn hE]
+  symm
+  apply List.Perm.length_eq
+  apply (List.perm_ext_iff_of_nodup (counted_nodup hn hE)
+    (List.Pairwise.filter _ (nodup_subsetsOfSize (nodesOf_sorted E).nodup))).mpr
+  intro S
+  rw [mem_counted hn hE, List.mem_filter, mem_subsetsOfSize_sorted (nodesOf_sorted E)]
+  simp only [decide_eq_true_eq]
+  constructor
+  · rintro ⟨hS, hlen, hc⟩
+    exact ⟨⟨hS, fun x hx => mem_nodesOf.mpr (conn_covered hS (by rcases hn with h | h <;> omega) hc x hx), hlen⟩, hc⟩
+  · rintro ⟨⟨hS, _, hlen⟩, hc⟩; exact ⟨hS, hlen, hc⟩
